@@ -778,7 +778,10 @@ impl<'a> Gen<'a> {
     fn operand_ty(&mut self, t: Ty) -> Ty {
         // same type most of the time; sometimes a narrower member of the same family
         if self.rng.chance(1, 4) {
-            let fam: Vec<Ty> = t.sources().into_iter().filter(|s| s.is_numeric() && (s.is_real() == t.is_real() || t.is_real())).collect();
+            // an integer operand of a REAL/LREAL operation must be exactly representable in the real type: IEC leaves open whether
+            // DINT op REAL rounds the integer to single precision first (the runtime computes in double and rounds once)
+            let exact = |s: Ty| !t.is_real() || s.is_real() || matches!(s, SInt | Int) || (t == LReal && s == DInt);
+            let fam: Vec<Ty> = t.sources().into_iter().filter(|s| s.is_numeric() && (s.is_real() == t.is_real() || t.is_real()) && exact(*s)).collect();
             *self.rng.pick(&fam)
         } else {
             t
